@@ -36,6 +36,7 @@ func rulesC18(c *Ctx) {
 	ruleRestoreSwap(c, "C18.RESTORELOCK")
 	ruleC18ReadPath(c)
 	ruleCowMapReadOnly(c, "C18.COWMAP", "boltz", "ast", "objectz")
+	ruleNoArgMutation(c, "C18.ARGMUTATE", "boltz", "ast", "objectz")
 	// a snapshot taken inside a read transaction is that transaction's state (copied through it, not through the
 	// database handle)
 	ruleC17Snapshot(c)
